@@ -16,7 +16,9 @@ Local Open Scope nat_scope.
 
 Inductive c10_case :=
 | CV (n : nat) (d : Z) (o : vop) (ops : list pt)   (* value-returning op; n ranks (0: unowned fibers); leaf default d *)
-| CR (n : nat) (a b : pt) (obs : list robs).   (* observers on the tensors a (and b), n ranks *)
+| CR (n : nat) (a b : pt) (obs : list robs)    (* observers on the tensors a (and b), n ranks *)
+| CV2 (n : nat) (d : Z) (o1 o2 : vop) (t : pt) (* o2 applied to the result of o1 *)
+| CJ (n : nat) (d : Z) (o1 : vop) (t : pt).    (* a rejected call on the result of o1 *)
 
 Definition D : Z := 0%Z.                        (* leaf default of the read-only cases *)
 
@@ -73,8 +75,8 @@ Record cv_trace := { t_s0 : list snapshot; t_s1 : list snapshot; t_sr : snapshot
 (* the sequence the harness performs: snapshot, operation, snapshot both sides, mutate the
    result (every box +7, every fiber's coordinates +1000, every rank list extended), snapshot,
    mutate the operands (+5), snapshot the result *)
-Definition cv_run (fixed : bool) (n : nat) (d : Z) (o : vop) (ts : list pt) : option cv_trace :=
-  let '(ops, nx) := load_all n ts 0%N in
+Definition trace_of (fixed : bool) (n : nat) (d : Z) (o : vop) (ops : list snapshot) (nx : N)
+  : option cv_trace :=
   match run_vop fixed d n o ops nx with
   | None => None
   | Some r =>
@@ -84,6 +86,29 @@ Definition cv_run (fixed : bool) (n : nat) (d : Z) (o : vop) (ts : list pt) : op
     let So := flat_map side_labels s2 in
     Some {| t_s0 := ops; t_s1 := v_ops r; t_sr := v_res r; t_s2 := s2; t_sr1 := sr1;
             t_sr2 := mutate_snap So 5%Z sr1 |}
+  end.
+Definition cv_run (fixed : bool) (n : nat) (d : Z) (o : vop) (ts : list pt) : option cv_trace :=
+  let '(ops, nx) := load_all n ts 0%N in trace_of fixed n d o ops nx.
+
+(* number of ranks of the result (0 = an unowned fiber) *)
+Definition res_ranks (n : nat) (o : vop) : nat :=
+  match o with
+  | VCopy | VSwap | VUpdCoords _ | VUpdPayloads _ => n
+  | VSplit _ _ | VUnflatten => match n with O => O | _ => S n end
+  | VFlatten => pred n
+  | VArith _ | VCopyNoOwner => O
+  | VFromFiber None => n
+  | VFromFiber (Some _) => pred n
+  end.
+
+(* two-step histories: the result of a first value-returning operation is the operand of a
+   second one (CV2) or of a call that is rejected with an exception (CJ) *)
+Definition first_step (fixed : bool) (n : nat) (d : Z) (o1 : vop) (t : pt) : option vres :=
+  let '(ops, nx) := load_all n [t] 0%N in run_vop fixed d n o1 ops nx.
+Definition cv2_run (fixed : bool) (n : nat) (d : Z) (o1 o2 : vop) (t : pt) : option cv_trace :=
+  match first_step fixed n d o1 t with
+  | None => None
+  | Some r1 => trace_of fixed (res_ranks n o1) d o2 [v_res r1] (v_nx r1)
   end.
 
 Definition trace_snaps (t : cv_trace) : list snapshot :=
@@ -110,6 +135,13 @@ Definition c10_model (c : c10_case) : V :=
   match c with
   | CV n d o ts => match cv_run true n d o ts with Some t => enc_trace t | None => Verr 1%Z end
   | CR n a b obs => enc_cr (cr_run false n a b obs)
+  | CV2 n d o1 o2 t => match cv2_run true n d o1 o2 t with Some tr => enc_trace tr | None => Verr 1%Z end
+  | CJ n d o1 t =>
+    match first_step true n d o1 t with
+    | Some r1 => let r := canon_of [v_res r1] in
+                 VL [VL [enc_snap r (v_res r1)]; VL [enc_snap r (v_res r1)]; VZ 1%Z]
+    | None => Verr 1%Z
+    end
   end.
 
 (* ---- the property, evaluated on an observation *)
@@ -165,6 +197,14 @@ Definition holds_cr (o : V) : bool :=
   | _ => false
   end.
 
+(* a rejected call: the operand (structure, rank lists, owners) as before; the flag says the
+   call raised and that the attribute values were kept *)
+Definition holds_cj (o : V) : bool :=
+  match o with
+  | VL [VL [a0]; VL [a1]; VZ flag] => same_struct a0 a1 && Z.eqb flag 1%Z
+  | _ => false
+  end.
+
 (* ---- well-formed cases (the generator stays inside) *)
 Fixpoint pt_depth_ok (k : nat) (t : pt) : bool :=
   match t, k with
@@ -181,6 +221,14 @@ Definition c10_wf (c : c10_case) : bool :=
     && (let '(ops, nx) := load_all n ts 0%N in forallb (boundedb nx) ops)
     && match cv_run true n d o ts with Some _ => true | None => false end
   | CR n a b obs => Nat.ltb O n && pt_depth_ok n a && pt_depth_ok n b
+  | CV2 n d o1 o2 t =>
+    match first_step true n d o1 t with
+    | Some r1 => boundedb (v_nx r1) (v_res r1)
+                 && match trace_of true (res_ranks n o1) d o2 [v_res r1] (v_nx r1) with
+                    | Some _ => true | None => false end
+    | None => false
+    end
+  | CJ n d o1 t => match first_step true n d o1 t with Some _ => true | None => false end
   end.
 
 Definition c10_holds (c : c10_case) (o : V) : bool :=
@@ -188,7 +236,22 @@ Definition c10_holds (c : c10_case) (o : V) : bool :=
   match c with
   | CV n _ _ ts => holds_cv (length ts) o
   | CR _ _ _ _ => holds_cr o
+  | CV2 _ _ _ _ _ => holds_cv 1 o
+  | CJ _ _ _ _ => holds_cj o
+  end.
+
+(* region 1 (reported, not yet a listed finding; the generator stays outside): a split with a
+   halo stores one payload fiber under two partitions; copy(preserve_owner=False) /
+   Tensor.fromFiber(owned root) on such a result visits that fiber twice in _detach_owner, records
+   "no owner" the second time, and _attach_owner then leaves it ownerless in the OPERAND *)
+Definition c10_region (c : c10_case) : Z :=
+  match c with
+  | CV2 _ _ (VSplit sp _) o2 _ =>
+    if (negb (Z.eqb (sp_pre sp) 0) || negb (Z.eqb (sp_post sp) 0))
+       && match o2 with VCopyNoOwner | VFromFiber _ => true | _ => false end
+    then 1%Z else 0%Z
+  | _ => 0%Z
   end.
 
 Definition c10_checker : checker c10_case :=
-  {| model := c10_model; holds := c10_holds; region := fun _ => 0%Z |}.
+  {| model := c10_model; holds := c10_holds; region := c10_region |}.
